@@ -35,6 +35,15 @@ chk("C08", "exploration", "DESIGN.md 5/C08",
     "The generator never pops a board below the fork point of a live relative (Fork's documented contract). Defects the twin shows too are C05's/C02's, not reported here.",
     "deterministic simulation: seeded interleavings of play/take-back/fork vs replay twin")
 
+chk("C03", "exploration", "DESIGN.md 5/C03",
+    "Real AlphaBeta.Search (full/selective exploration, static/quiescence leaf, seeded evaluation and ordering) run as an operation of a live board session and compared with exhaustive negamax on the model game through an independent integer score model: exact value (mate distances incl. mated-sooner/later), PV legal, no longer than depth, first move optimal, board handed back unchanged. Histories (repetitions before the root, clocks near 100) are part of the input.",
+    "Trusts verif/sim/rules and verif/sim/msearch. Value at an already-drawn root is not judged; over-budget reference searches are counted, not judged.",
+    "deterministic simulation: seeded game histories + search operations vs reference negamax")
+chk("C14", "exploration", "DESIGN.md 5/C14",
+    "FEN codec round trip both ways at every state S-B visits (model clocks and tape-drawn clocks 0..150 / 1..300), and engine histories (Reset with arbitrary clocks / Move / TakeBack) with Engine.Position() compared to the standard FEN of the model game after every call.",
+    "The all-strings half of the codec statement is C19's (not claimed). Trusts verif/sim/rules for FEN clock definitions.",
+    "deterministic simulation: seeded operation histories vs reference model, checked per operation")
+
 def main():
     props = [json.loads(l) for l in open('/verif/properties.jsonl')]
     ids = [p['id'] for p in props]
